@@ -30,6 +30,32 @@ def loop_blocks(fn):
     return out
 
 
+def family(facts, top):
+    """module::load with the closures and the private helpers of its module it calls (one level), and their closures:
+    splitting the function into phases or turning a loop into an iterator pipeline does not change the program"""
+    fam = [top] + list(facts.closures_of(top))
+    mod = top.qname.rsplit('::', 1)[0]
+    for b, t in top.calls():
+        cal = callee_of(t)
+        h = facts.fns.get(cal.get('resolved_id') or cal.get('id')) if cal else None
+        if h is not None and h.mir and h not in fam and h.qname.startswith(mod + '::') and h.kind != 'Closure' and '<' not in h.qname.split('::')[-2]:
+            fam.append(h)
+            fam += [x for x in facts.closures_of(h) if x not in fam]
+    return fam
+
+
+def holder(facts, top, *callees):
+    """the function of the family that contains a call to one of `callees` (module::load itself first)"""
+    for f2 in family(facts, top):
+        if P.call_blocks(f2, *callees):
+            return f2
+    return top
+
+
+def call_sites_of(top, h):
+    return [(b, t) for b, t in top.calls() if callee_of(t) and (callee_of(t).get('resolved_id') or callee_of(t).get('id')) == h.id]
+
+
 def r1_once(c, facts):
     R = c.rule('C10.R1', 'ONCE: an import is loaded and parsed only on the not-yet-seen arm, and is registered before the next iteration')
     fn = c.anchor(R, L)
@@ -115,7 +141,8 @@ def r2_edge_agree(c, facts):
 
 def r3_sorted(c, facts):
     R = c.rule('C10.R3', 'SORTED: modules are compiled only after a successful toposort, in its order; a cycle is an error')
-    fn = c.anchor(R, L)
+    top = c.anchor(R, L)
+    fn = holder(facts, top, 'toposort')
     idx = MF.defs_index(fn)
     topo = P.call_blocks(fn, 'toposort')
     comp = P.call_blocks(fn, 'module::Loader::compile')
@@ -158,24 +185,22 @@ def r3_sorted(c, facts):
     else:
         c.bad(R, 'cycle-error-kind-missing', 'a toposort failure is no longer reported as Kind::CycleDetected')
     # compile must not happen inside the loading loop
-    loops = loop_blocks(fn)
-    gets = [b for b, t in P.call_blocks(fn, 'HashMap::get') if b in loops]
-    for b, t in comp:
-        if gets and gets[0] in fn.reachable_from(b):
+    loops = loop_blocks(top)
+    gets = [b for b, t in P.call_blocks(top, 'HashMap::get') if b in loops]
+    where = comp if fn is top else call_sites_of(top, fn)
+    for b, t in where:
+        if gets and gets[0] in top.reachable_from(b):
             c.bad(R, 'compile-inside-loading-loop', 'loader.compile runs while modules are still being loaded')
+    if fn is not top and not where:
+        c.bad(R, 'compile-phase-not-called', 'module::load no longer calls %s' % fn.qname)
 
 
 def r4_invalid(c, facts):
     R = c.rule('C10.R4', 'INVALID: an invalid import target is reported (Kind::InvalidModule) and never loaded')
     top = c.anchor(R, L)
     fn = top
+    fn = holder(facts, top, 'module::Loader::is_valid')
     iv = P.call_blocks(fn, 'module::Loader::is_valid')
-    if not iv:
-        for cl in facts.closures_of(top):
-            if P.call_blocks(cl, 'module::Loader::is_valid'):
-                fn = cl
-                iv = P.call_blocks(cl, 'module::Loader::is_valid')
-                break
     if not iv:
         c.bad(R, 'is_valid-not-consulted', 'module::load no longer asks the loader whether an import target is valid')
         return
@@ -205,11 +230,11 @@ def r4_invalid(c, facts):
     else:
         c.ok(R, {'invalid target': 'cannot reach loader.load'})
     pushes = [x for x, tt in P.call_blocks(fn, 'Vec::push') if fn.dominates(t_t, x)]
-    if fn is not top:
+    if fn.kind == 'Closure':
         # iterator form: the closure yields Ok(target) on the true edge and Err on the false edge; the parent collects
         oks = [x for x in P.ok_blocks(fn) if x in fn.reachable_from(t_t)]
         bad_ok = [x for x in P.ok_blocks(fn) if x in fn.reachable_from(f_t[0], avoid=[t_t])]
-        if oks and not bad_ok and (P.call_blocks(top, 'Iterator::collect') or P.call_blocks(top, 'FromIterator::from_iter')):
+        if oks and not bad_ok and any(P.call_blocks(f2, 'Iterator::collect') or P.call_blocks(f2, 'FromIterator::from_iter') for f2 in family(facts, top)):
             pushes = oks
         else:
             pushes = []
@@ -226,10 +251,9 @@ def r5_join_agree(c, facts):
         fn = c.anchor(R, q)
         outer = None
         if not P.call_blocks(fn, 'Locator::join'):
-            for cl in facts.closures_of(fn):
-                if P.call_blocks(cl, 'Locator::join'):
-                    outer, fn = fn, cl
-                    break
+            h = holder(facts, fn, 'Locator::join')
+            if h is not fn:
+                outer, fn = fn, h
         idx = MF.defs_index(fn)
         joins = P.call_blocks(fn, 'Locator::join')
         if not joins:
@@ -239,7 +263,15 @@ def r5_join_agree(c, facts):
         sl = MF.slice_back(fn, t['args'][1]['l'], idx, through_calls=False) if 'l' in t['args'][1] else {'calls': []}
         names = sorted({x.split('::')[-1] for x, _, _ in sl['calls']} - {'deref', 'as_ref', 'as_str', 'borrow'})
         base = MF.slice_back(fn, t['args'][0]['l'], idx) if 'l' in t['args'][0] else {'calls': [], 'args': set()}
-        if outer is not None:
+        if outer is not None and fn.kind != 'Closure':
+            # a private helper: its parameters are the arguments at the call site in the enclosing function
+            pidx = MF.defs_index(outer)
+            for cb, ct in call_sites_of(outer, fn):
+                for pi in sorted(base.get('args', set())):
+                    if pi - 1 < len(ct['args']) and 'l' in ct['args'][pi - 1]:
+                        b2 = MF.slice_back(outer, ct['args'][pi - 1]['l'], pidx)
+                        base = {'calls': base['calls'] + b2['calls'], 'args': base.get('args', set())}
+        elif outer is not None:
             par, ops = MF.upvar_operands(facts, fn, base, idx)
             if par is not None:
                 pidx = MF.defs_index(par)
@@ -319,7 +351,7 @@ def r6_complete(c, facts):
     accessor_complete(c, facts, R, 'oal_syntax::parser::Program::imports', 'import')
     fn = c.anchor(R, L)
     # both consumers use the accessor
-    if P.call_blocks(fn, 'Program::imports') and P.call_blocks(c.anchor(R, 'oal_compiler::resolve::resolve'), 'Program::imports'):
+    if P.call_blocks(holder(facts, fn, 'Program::imports'), 'Program::imports') and P.call_blocks(c.anchor(R, 'oal_compiler::resolve::resolve'), 'Program::imports'):
         c.ok(R, {'loader and resolver': 'both enumerate Program::imports()'})
     else:
         c.bad(R, 'imports-not-from-accessor', 'module::load or resolve() no longer enumerates Program::imports()')
@@ -331,7 +363,7 @@ def r6_complete(c, facts):
             for s in blk['stmts']:
                 if s['s'] == 'assign' and s['rv']['r'] == 'aggr' and s['rv'].get('variant') == 'CycleDetected':
                     sites.append(f2.qname)
-    topo_cl = [cl.qname for cl in facts.closures_of(fn)]
+    topo_cl = [cl.qname for cl in facts.closures_of(holder(facts, fn, 'toposort'))]
     if sites and all(q in topo_cl for q in sites):
         c.ok(R, {'Kind::CycleDetected constructed in': sites})
     else:
